@@ -100,6 +100,20 @@ def run(ctx):
                         except (TypeError, ValueError):
                             continue
                         yield ("c04", dict(base, route="kw", P=None, kwargs=kw, _k="kw:%d:%s:%s" % (li, pat, P0.hex()[:40])))
+        # sparse keyword builds: ONE attribute (and, where the first attribute looks like a discriminator - type / version / msgVer ... -
+        # that attribute with table and non-table values plus one other): whatever the library decides to build must be accepted again
+        for li, l in enumerate(lays):
+            if l["c"] != 1:
+                continue
+            nm = names_for(defs, l["cls"], l["id"], l["bfix"])
+            ex = [e for e in l["lay"] if e["x"] == 1 and e["k"] in ("f", "x") and not e["n"].startswith("_HP") and e["k"] == "f" and e["t"][:1] in "UIEL" and e["sc"] == 0]
+            if not ex:
+                continue
+            base = {"m": l["m"], "cls": l["cls"], "id": l["id"], "name": l["name"], "names": nm, "route": "kw", "P": None}
+            yield ("c04", dict(base, kwargs={ex[-1]["n"]: 1}, _k="sparse:%d:last" % li))
+            if len(ex) > 1 and ex[0]["n"] in ("type", "version", "msgVer", "msgType", "subType", "dataType"):
+                for dv in (0, 1, 2, 3, 16, 255):
+                    yield ("c04", dict(base, kwargs={ex[0]["n"]: dv, ex[1]["n"]: 3}, _k="sparse:%d:%d" % (li, dv)))
         # variable-length text attributes given as BYTES (character attributes take str or bytes): whatever the bytes are - ISO 8859-1
         # text, truncated or overlong UTF-8, encoded surrogates, arbitrary bytes - the frame built must be accepted again
         for li, l in enumerate(lays):
